@@ -241,7 +241,9 @@ def run_case(qualname, recipes, caller=None):
     c = contracts()[qualname]
     plain = {k: v for k, v in recipes.items() if v.get("t") != "alias"}
     args = {k: build(v) for k, v in plain.items()}
-    spec_args = {k: specref.exact(build(v)) for k, v in plain.items()}
+    # contract clauses see the very objects passed to the function (exact() only converts numbers / numeric vectors), so that
+    # identity clauses (same_object) can be evaluated; the frame check below compares against deep copies taken before the call
+    spec_args = {k: specref.exact(args[k]) for k in plain}
     for k, v in recipes.items():
         if v.get("t") == "alias":           # the very same object passed for two parameters
             args[k] = args[v["of"]]
